@@ -315,7 +315,10 @@ def gen_case(rnd, small=False):
             "seeds": [rnd.randrange(1 << 20) for _ in range(n)], "tseeds": [rnd.randrange(1 << 20) for _ in range(n)],
             "ctrl_seed": rnd.randrange(1 << 20), "special": rnd.choice([0.0, 0.0, 0.03]),
             "tmode": rnd.choice(["distinct", "same", "tempered", "tempered"]),
-            "ims": [[rnd.randint(-8, 8) / 8.0 for _ in range(d)] for _ in range(n)]}
+            "ims": [[rnd.randint(-8, 8) / 8.0 for _ in range(d)] for _ in range(n)],
+            # chains whose target has bounded support (misfit +inf outside a box around its starting model): the partner's
+            # state is then usually a model of zero probability for this chain
+            "boxed": [rnd.choice([None, None, 0.25, 1.0]) if rnd.random() < 0.5 else None for _ in range(n)]}
 
 
 def target_class():
@@ -354,6 +357,9 @@ def build(c):
         import math
         while not math.isfinite(t.misfit_value(m)):
             m += 0.125
+    for t, m, hw in zip(targets, ims, c.get("boxed") or [None] * len(targets)):
+        if hw is not None:
+            t.box = ([float(v) - hw for v in m.flatten()], [float(v) + hw for v in m.flatten()])
     return samplers, targets, ims
 
 
